@@ -285,7 +285,9 @@ func verifFreeStyle(tag string, mode int) Style {
 			st.Background = c
 		case 2:
 			st.UnderlineColor = c
-			st.UnderlineStyle = UnderlineStyle(1 + zzverif.Choose(tag+".ul", 2))
+			// an underline colour with no underline, a single or a double one: the colour is
+			// pen state of its own
+			st.UnderlineStyle = UnderlineStyle(zzverif.Choose(tag+".ul", 3))
 		}
 		return st
 	}
